@@ -8,13 +8,14 @@ from harness.common import CONFIGS, F, enc, fl
 
 ID = "C02"
 PROPS_FILE = "Props/C02.v"
-COQ_IMPORTS = "From SA Require Import Model.Harness."
+COQ_IMPORTS = "From SA Require Import Model.Harness.\nFrom SA Require Model.FloatThreshold.\nFrom Coq Require Import Floats.PrimFloat."
 GEN_AVAILABLE = set()
 RULE = ("random Scores x metric (6) x configuration (4) x method (3) x 5 targets (grid, off-grid, 0, 1, <0, >1); "
         "stream E (exact: relevant class size and size+easy powers of two, small dyadic scores/targets) compared "
         "bit-for-bit with the model, stream F (arbitrary sizes/doubles) within 64 ulp; non-trivial: relevant class "
         "has >= 2 scores and some target lies strictly inside the achievable range")
-TRUSTED = ["np.nextafter = succ64/pred64 (binary64 neighbour on exact rationals, Base/Carrier.v)",
+TRUSTED = ["Model/FloatThreshold.v (binary64 model of threshold setting over Coq primitive floats, compared bit for bit on every case): kernel float primitives + vm_compute on hardware doubles; used by the correspondence only, no theorem depends on it",
+           "np.nextafter = succ64/pred64 (binary64 neighbour on exact rationals, Base/Carrier.v)",
            "np.floor/np.ceil/np.maximum/np.minimum/astype(int) as Qfloor/Qceiling/Qmax2/Qmin2",
            "float rounding absent from the model (exact rationals): stream E inputs are exact by construction, stream F compared up to 64 ulp"]
 ASSUMPTIONS = ["finite scores of moderate magnitude", "relevant class non-empty (otherwise ValueError, compared as such)"]
@@ -97,12 +98,15 @@ def coq_term(case, res):
         return None
     if "ok" not in res:
         if res.get("err") == "ValueError":
-            return f"(let s := {tc.scores_term(case)} in thr_raises {tc.COQ_METRIC[case['metric']]} s Linear 0)"
+            return (f"(let s := {tc.scores_term(case)} in thr_raises {tc.COQ_METRIC[case['metric']]} s Linear 0) && "
+                    + tc.float_agree_term(case, [], raised=True))
         return "false"
     r = res["ok"]
     fuzzy = not case["exact"]
     tol = F(r["tau"]) if fuzzy else 0
     parts = [tc.thr_agree_term(case, r["thr_" + m], tol, fuzzy, method=m) for m in ("linear", "lower", "higher")]
+    # binary64 model (Model/FloatThreshold.v): bit-for-bit on every input, exact stream or not
+    parts += [t for t in (tc.float_agree_term(case, r["thr_" + m], method=m) for m in ("linear", "lower", "higher")) if t]
     if "Gen_thr" in GEN_AVAILABLE and not fuzzy:
         s = tc.scores_term(case)
         mt = case["metric"]
